@@ -154,6 +154,8 @@ package node
 //@   ensures[refused] ret0 != nil ==> c.head == old(c.head) && c.seq == old(c.seq)
 //@   ensures[pools]   __eq(c.transactionPool, old(c.transactionPool)) && __eq(c.internalTransactionPool, old(c.internalTransactionPool))
 //@   call insertEventAndRunConsensus assert[signed-first] __lastret("Sign", 0) == nil && __arg(0) == event
+// a self-event has no wire coordinates yet: they are filled in at insertion (an event gossiped without them names the wrong parents, C15)
+//@   call insertEventAndRunConsensus assert[wire-info] __arg(1) == true
 
 //@ func (c *core) addTransactions(txs [][]byte)
 //@   safety on
